@@ -387,6 +387,7 @@ Proof.
   intros I V E. simpl in E, V.
   destruct s as [s0|]; [|inversion E; subst; eapply sinv_log; eauto].
   destruct (ss_det s0) as [d|] eqn:Ed; [inversion E; subst; eapply sinv_log; eauto|].
+  specialize (V s0 eq_refl Ed).
   destruct I as [Ichain Iuniq Ihigh Ilim Idet Inodet Itrack Iheights Inodisp Ihint].
   simpl in *.
   destruct r0 as [[h t]|].
